@@ -171,6 +171,9 @@ type pgen struct {
 	rangeVals []rangeVal
 	ctxVars   []ctxVar
 	nextID    int
+	lastK     string // names of the range loop finished last
+	lastV     string
+	lastKind  string
 	loopDepth int
 	maxDepth  int
 	opts      genOpts
@@ -821,6 +824,23 @@ func (g *pgen) cloop() {
 func (g *pgen) rloop() {
 	r := g.r
 	k, v := g.id("k"), g.id("v")
+	reused := false
+	if g.lastK != "" && r.chance(1, 2) {
+		// the names of an earlier, finished range loop are used again (often
+		// over a source of another kind): each loop binds them afresh
+		inScope := false
+		for _, x := range g.rangeKeys {
+			inScope = inScope || x == g.lastK
+		}
+		for _, x := range g.rangeVals {
+			inScope = inScope || x.name == g.lastV
+		}
+		if !inScope {
+			k, v = g.lastK, g.lastV
+			reused = true
+			g.count("range loop reusing the names of a finished one")
+		}
+	}
 	var srcs []struct {
 		path, kind string
 	}
@@ -830,6 +850,15 @@ func (g *pgen) rloop() {
 	srcs = append(srcs, struct{ path, kind string }{"st.Finance.History", "hist"}, struct{ path, kind string }{"obj.Finance.History", "hist"},
 		struct{ path, kind string }{"jso.missing", "int"}, struct{ path, kind string }{"jso.o.nokey", "int"})
 	s := pick(r, srcs)
+	if reused {
+		// prefer a source of the other kind (document array <-> struct slice)
+		for try := 0; try < 6 && (s.kind == "hist") == (g.lastKind == "hist"); try++ {
+			s = pick(r, srcs)
+		}
+		if (s.kind == "hist") != (g.lastKind == "hist") {
+			g.count("range loop reusing names over a source of the other kind")
+		}
+	}
 	form := r.intn(4)
 	switch form {
 	case 0:
@@ -874,6 +903,7 @@ func (g *pgen) rloop() {
 	g.loopDepth--
 	g.rangeKeys = g.rangeKeys[:nk]
 	g.rangeVals = g.rangeVals[:nv]
+	g.lastK, g.lastV, g.lastKind = k, v, s.kind
 	g.emit("}")
 	g.count("range loop")
 }
